@@ -182,7 +182,8 @@ def _maxrss_kb():
 def _call_under_test(path, fast_load, get_code):
     from xdis.load import load_module
 
-    return load_module(path, fast_load=fast_load, get_code=get_code)
+    with core.FixedHeadroom():
+        return load_module(path, fast_load=fast_load, get_code=get_code)
 
 
 def exec_image(image, name, fast_load, get_code, count_steps, tag="r"):
@@ -288,6 +289,7 @@ def _compact(plan, rec):
         "so": rec.get("stdout_bytes", 0),
         "fl": bool(plan.fast_load),
         "gc": bool(plan.get_code),
+        "h": core.sha256_hex(plan.image)[:12],
     }
 
 
@@ -448,7 +450,7 @@ def new_agg():
     return {"runs": 0, "changed": 0, "controls": 0, "controls_ok": 0, "outcomes": {}, "fault_kinds": {},
             "triples": {}, "violations": [], "steps_total": 0, "steps_runs": 0, "steps_max_ratio": 0.0,
             "fast_path_runs": 0, "fast_path_faulted": 0, "raise_sites": {}, "probes": {}, "anomalies": [],
-            "samples": [], "stdout_runs": 0, "wall": 0.0, "bytes": 0}
+            "samples": [], "stdout_runs": 0, "wall": 0.0, "bytes": 0, "digest_full": 0, "digest_verdict": 0}
 
 
 def _probe(agg, name, n=1):
@@ -457,6 +459,9 @@ def _probe(agg, name, n=1):
 
 def account(agg, c, plan):
     agg["runs"] += 1
+    vcls = sig_key(signature(c["v"])) if c["v"] else "-"
+    agg["digest_full"] ^= int(core.sha256_hex(repr((c["i"], c["h"], c["o"], c.get("s"), vcls, c.get("st"))).encode())[:16], 16)
+    agg["digest_verdict"] ^= int(core.sha256_hex(repr((c["i"], c["h"], c["o"], vcls)).encode())[:16], 16)
     agg["bytes"] += c["n"]
     o = c["o"]
     agg["outcomes"][o] = agg["outcomes"].get(o, 0) + 1
@@ -508,6 +513,8 @@ def merge(aggs):
         for k in ("runs", "changed", "controls", "controls_ok", "steps_total", "steps_runs", "fast_path_runs",
                   "fast_path_faulted", "stdout_runs", "bytes"):
             tot[k] += a[k]
+        tot["digest_full"] ^= a["digest_full"]
+        tot["digest_verdict"] ^= a["digest_verdict"]
         tot["wall"] = max(tot["wall"], a["wall"])
         tot["steps_max_ratio"] = max(tot["steps_max_ratio"], a["steps_max_ratio"])
         for dk in ("outcomes", "fault_kinds", "triples", "raise_sites", "probes"):
@@ -950,8 +957,15 @@ def main(opts):
 def _agg_digest(a):
     import json
 
-    keys = ("runs", "changed", "outcomes", "fault_kinds", "triples", "steps_total", "raise_sites")
+    keys = ("runs", "changed", "outcomes", "fault_kinds", "triples", "steps_total", "raise_sites", "digest_full")
     return core.sha256_hex(json.dumps({k: a[k] for k in keys}, sort_keys=True).encode())
+
+
+def digest_run(master, nruns, workers, shard=40):
+    """self-test helper: (full digest, verdict digest) of runs [0, nruns)"""
+    shards = [(lo, min(nruns, lo + shard)) for lo in range(0, nruns, shard)]
+    tot = merge(core.run_sharded(run_shard, shards, workers))
+    return "%016x" % tot["digest_full"], "%016x" % tot["digest_verdict"], tot
 
 
 def run_sweeps(cfg, workers, t0):
